@@ -1,7 +1,7 @@
 """T2 driver for C08 (bounded, scope S-PIPE): see bounded/pipeline.py."""
 from . import common, pipeline
 
-SCOPE = 'S-PIPE: fixed matrix direction {up,down,left,right} x scale {TimeScale with dates / datetimes with time of day / mixed unsorted dates+datetimes; LinearScale with numbers} x dataset shape {single datum, two data at one time, unsorted, dense cluster in several layers (maxPos), wide span} x 15 option variants (layerGap 1/10/60, labelPadding zero/asymmetric, showTicks off, explicit covering domain vs derived, integer canvas sizes and margins, engine options with nodeSpacing>=3, XML-special / non-ASCII / absent / empty text, colours as 3- and 6-digit hex, lists, functions, showBorder on/off; quick: a 5-variant covering design per cell, thorough: all), SVG and TikZ back-ends; then seeded random datasets (1..40 data) and options until the time budget. datetime.time values, non-integer canvas sizes and margins are outside (C09 notes a non-integer sub-scope)'
+SCOPE = 'S-PIPE: fixed matrix direction {up,down,left,right} x scale {TimeScale with dates / datetimes with time of day / mixed unsorted dates+datetimes; LinearScale with numbers} x dataset shape {single datum, two data at one time, unsorted, dense cluster in several layers (maxPos), wide span} x 15 option variants (layerGap 1/10/60, labelPadding zero/asymmetric, showTicks off, explicit covering domain vs derived, integer canvas sizes and margins, engine options with nodeSpacing>=3, XML-special / non-ASCII / absent / empty text, colours as 3- and 6-digit hex, lists, functions, showBorder on/off) = 1200 cases, SVG and TikZ back-ends (thorough: also ordered pairs of variants merged); then seeded random datasets (1..40 data) and options until the time budget. datetime.time values, non-integer canvas sizes and margins are outside (C09 notes a non-integer sub-scope)'
 
 if __name__ == "__main__":
     common.main("C08", SCOPE, lambda run: pipeline.explore(run, {"C08"}), lambda run, inp: pipeline.replay(run, {"C08"}, inp))
